@@ -141,3 +141,42 @@ class SOpaque:
 
     def __repr__(self):
         return "<opaque %s>" % self.name
+
+
+class SYields(SList):
+    """Ghost record of the values yielded by a generator when the number of
+    yields is symbolic: the sequence (arr, n) and the membership predicate
+    `mem` (both updated by every `yield`, so  mem[v] <=> exists i<n. arr[i]=v
+    holds by construction - an engine-level ghost axiom)."""
+
+    def __init__(self, arr, n, mem):
+        SList.__init__(self, arr, n, None)
+        self.mem = mem
+
+    def member(self, v):
+        return z3.Select(self.mem, L.to_z3(v))
+
+
+class SymFn:
+    """A callable whose behaviour is given symbolically (abstract dependency)."""
+
+    def __init__(self, fn, name="fn"):
+        self.fn = fn
+        self.name = name
+
+    def __sym_call__(self, I, args, kwargs, node):
+        return self.fn(I, *args, **kwargs)
+
+
+class SPred:
+    """An abstract container of ints: truthiness and membership are symbolic."""
+
+    def __init__(self, truthy, member):
+        self.truthy = truthy
+        self.member = member
+
+    def __sym_truth__(self):
+        return self.truthy
+
+    def __sym_contains__(self, I, x, node):
+        return self.member(x)
